@@ -84,6 +84,24 @@ func c19Exec(r *Run, line string) string {
 			r.Violate(sig, fmt.Sprintf("DecodePacketKey(EncodePacketKey(k)) = %x, k = %x", dec, k), line)
 		}
 		return "ok " + Hex(dec)
+	case "evrt":
+		// the packet key as the hub hands it out in EventDemandOrderCreated (what a fulfiller / relayer
+		// copies into MsgFinalizePacketByPacketKey) must decode back to exactly the packet's key
+		k := pkey(1)
+		o := eibctypes.DemandOrder{TrackingPacketKey: string(k)}
+		ev := o.GetCreatedEvent(0, "0").PacketKey
+		dec, err := commontypes.DecodePacketKey(ev)
+		if err != nil {
+			r.Violate("C19/packet_key_roundtrip/event-key-does-not-decode", fmt.Sprintf("packet key %q of EventDemandOrderCreated for key %x: DecodePacketKey errors: %v", ev, k, err), line)
+			return "err " + Hex([]byte(ev))
+		}
+		if !bytes.Equal(dec, k) {
+			r.Violate("C19/packet_key_roundtrip/event-key-decodes-to-another-key", fmt.Sprintf("packet key %q of EventDemandOrderCreated decodes to %x, the packet's key is %x", ev, dec, k), line)
+		}
+		if vb := (&datypes.MsgFinalizePacketByPacketKey{Sender: "dym1g8sf7w4cz5gtupa6y62h3q6a4gjv37pgefnpt5", PacketKey: ev}).ValidateBasic(); vb != nil {
+			r.Violate("C19/packet_key_roundtrip/event-key-refused-by-finalize-message", fmt.Sprintf("MsgFinalizePacketByPacketKey refuses the event's packet key %q: %v", ev, vb), line)
+		}
+		return "ok " + Hex([]byte(ev)) + " " + Hex(dec)
 	case "rmax", "rfrom":
 		var flt datypes.RollappPacketListFilter
 		if f[0] == "rmax" {
@@ -1149,6 +1167,7 @@ func TestC19(t *testing.T) {
 			emit("pkey", "pkey "+pk())
 		case 5, 6:
 			emit("rt", "rt "+pk())
+			emit("evrt", "evrt "+pk())
 		case 7:
 			ra := Hex([]byte(c19RollappID(g)))
 			k := pk()
